@@ -358,7 +358,19 @@ func checkC02(ix *index, add addFn) {
 				for _, m := range ms {
 					if m.hasID && m.id == r.P.ID && m.complete < 0 {
 						if j, ok := m.relConn[r.Conn]; ok && j < i {
-							m.complete = i
+							// a PUBCOMP that arrives after the request was abandoned on this
+							// connection (response timeout reported in between) was not
+							// "received for the message": the client had already decided to
+							// retransmit, which is what it must do
+							abandoned := false
+							for k := j; k < i; k++ {
+								if ix.tr[k].Kind == "onerror" && hasCls(ix.tr[k].Cls, "reqtimeout") {
+									abandoned = true
+								}
+							}
+							if !abandoned {
+								m.complete = i
+							}
 						}
 					}
 				}
@@ -565,6 +577,13 @@ func checkC12(ix *index, add addFn) {
 	byID := map[uint16][]string{}
 	for i := range ix.tr {
 		r := &ix.tr[i]
+		if r.Kind == "txbad" && strings.Contains(r.S, "qos0 with DUP") {
+			// the strict decoder refuses it, so it never becomes a tx record: a
+			// QoS 0 PUBLISH with DUP=1 can only be a retransmitted QoS 0 message (or
+			// a first transmission carrying DUP)
+			add("q0-once", fmt.Sprintf("conn %d: QoS 0 PUBLISH with DUP=1 on the wire (%s)", r.Conn, r.S), nil)
+			continue
+		}
 		if r.Kind != "tx" && r.Kind != "txfail" {
 			continue
 		}
